@@ -4,6 +4,7 @@ MODULES = [
     'contracts.layout',
     'contracts.names',
     'contracts.taskdata',
+    'contracts.taskfuncs',
 ]
 EXTRA_CHECKS = {}
 EXTRA_REPLAY = {}
